@@ -67,12 +67,11 @@ fn check_enc(c: &EncCase) -> CaseResult {
                 Ok(Err(e)) => return fail("entry=Sm2PublicKey::encrypt input=valid outcome=err", format!("{:?}", e)),
                 Err(p) => return fail(format!("entry=Sm2PublicKey::encrypt input=valid outcome=panic site={}", panic_site(&p)), p),
             };
-            // exact comparison with the reference encryptor for the same nonce(s)
-            let (want, used) = match r2::encrypt_with_k(&pk_ref, &msg, &k) {
-                Some(w) => (w, 1),
-                None => (r2::encrypt_with_k(&pk_ref, &msg, &k2).ok_or_else(|| Fail { key: "harness: two retries".into(), detail: "".into() })?, 2),
-            };
-            ensure!(2 - left == used, "entry=Sm2PublicKey::encrypt outcome=wrong-retry-behaviour", "library consumed {} nonce candidates, the standard {}", 2 - left, used);
+            // exact comparison with the reference encryptor for the nonce the library actually used (the last candidate consumed)
+            let consumed = 2 - left;
+            ensure!(consumed >= 1, "entry=Sm2PublicKey::encrypt outcome=nonce-not-drawn", "no candidate consumed");
+            let k_used = if consumed == 1 { &k } else { &k2 };
+            let want = r2::encrypt_with_k(&pk_ref, &msg, k_used).ok_or_else(|| Fail { key: "entry=Sm2PublicKey::encrypt outcome=used-a-nonce-that-needs-retry".into(), detail: format!("k={:x}", k_used) })?;
             let want = want.encode(c.compressed, c.c1c3c2);
             ensure!(ct == want, "entry=Sm2PublicKey::encrypt outcome=wrong-ciphertext", "d={:x} k={:x} {} |M|={}: library {} standard {}", d, k, cfg, msg.len(), hexs::hx(&ct), hexs::hx(&want));
             ct
